@@ -203,7 +203,9 @@ Fixpoint hkey_eqb (a b : hkey) {struct a} : bool :=
             end) ch ch'
   | _, _ => false
   end.
-Definition bsum (lo hi : Z) : Z := pyhash lo + pyhash hi.
+(* hash(Bounds) is CPython's hash() OF __hash__'s result hash(lower)+hash(upper): a result of -1
+   becomes -2, so sums -1 and -2 collide as well *)
+Definition bsum (lo hi : Z) : Z := pyhash (pyhash lo + pyhash hi).
 Fixpoint hkey_of (p : prop) : hkey :=
   match p with
   | Var i lo hi => HVar i (bsum lo hi)
